@@ -114,6 +114,10 @@ type Scope struct {
 	generator   IdentifierGenerator
 	aliases     map[pgsql.Identifier]pgsql.Identifier
 	definitions map[pgsql.Identifier]*BoundIdentifier
+
+	// parameterAliases maps a cypher parameter symbol to its generated parameter identifier. Parameters
+	// have a namespace of their own: `$n` must neither resolve to nor shadow a variable named `n`.
+	parameterAliases map[pgsql.Identifier]pgsql.Identifier
 }
 
 func NewScope() *Scope {
@@ -122,6 +126,8 @@ func NewScope() *Scope {
 		generator:   NewIdentifierGenerator(),
 		aliases:     map[pgsql.Identifier]pgsql.Identifier{},
 		definitions: map[pgsql.Identifier]*BoundIdentifier{},
+
+		parameterAliases: map[pgsql.Identifier]pgsql.Identifier{},
 	}
 }
 
@@ -149,6 +155,9 @@ func (s *Scope) PruneDefinitions(protectedIdentifiers *pgsql.IdentifierSet) erro
 	s.definitions = prunedDefinitions
 	s.aliases = prunedAliases
 
+	// Parameter definitions are never protected, their aliases go with them
+	s.parameterAliases = map[pgsql.Identifier]pgsql.Identifier{}
+
 	// Prune scope to only what's being exported by the with statement
 	currentFrame := s.CurrentFrame()
 
@@ -165,6 +174,11 @@ func (s *Scope) Snapshot() *Scope {
 	aliasesCopy := make(map[pgsql.Identifier]pgsql.Identifier)
 	for k, v := range s.aliases {
 		aliasesCopy[k] = v
+	}
+
+	parameterAliasesCopy := make(map[pgsql.Identifier]pgsql.Identifier, len(s.parameterAliases))
+	for k, v := range s.parameterAliases {
+		parameterAliasesCopy[k] = v
 	}
 
 	definitionsCopy := make(map[pgsql.Identifier]*BoundIdentifier)
@@ -192,6 +206,8 @@ func (s *Scope) Snapshot() *Scope {
 		generator:   s.generator,
 		aliases:     aliasesCopy,
 		definitions: definitionsCopy,
+
+		parameterAliases: parameterAliasesCopy,
 	}
 }
 
@@ -319,6 +335,23 @@ func (s *Scope) LookupBindings(identifiers ...pgsql.Identifier) ([]*BoundIdentif
 func (s *Scope) Alias(alias pgsql.Identifier, binding *BoundIdentifier) {
 	binding.Alias = models.OptionalValue(alias)
 	s.aliases[alias] = binding.Identifier
+}
+
+// AliasParameter records the generated identifier of a cypher parameter symbol.
+func (s *Scope) AliasParameter(symbol pgsql.Identifier, binding *BoundIdentifier) {
+	binding.Alias = models.OptionalValue(symbol)
+	s.parameterAliases[symbol] = binding.Identifier
+}
+
+// ParameterLookup resolves a cypher parameter symbol to the binding of its generated identifier.
+func (s *Scope) ParameterLookup(symbol pgsql.Identifier) (*BoundIdentifier, bool) {
+	if identifier, aliased := s.parameterAliases[symbol]; aliased {
+		if binding, bound := s.Lookup(identifier); bound && binding.Parameter != nil {
+			return binding, true
+		}
+	}
+
+	return nil, false
 }
 
 func (s *Scope) Declare(identifier pgsql.Identifier) {
